@@ -100,7 +100,8 @@ def _q16(e0, e1, e2, e3, m0, m1, m2, m3, ms, now0, inc0, inc1, pi, hashing, hrec
         table = w.status_table()
         for i in cone:
             if pr.outputs[i] and table.get(pr.names[i]) != "completed":
-                return "after touch %s target %s is shown %s (mtimes %s)" % (pats, pr.names[i], table.get(pr.names[i]), {k[len(ROOT) + 1:]: v[0] for k, v in after.items() if not k.startswith(ROOT + "/.gwf")})
+                missing = [o for j in cone for o in pr.outputs[j] if ROOT + "/" + o not in after]
+                return "after touch %s target %s is shown %s (cone outputs still missing: %s)" % (pats, pr.names[i], table.get(pr.names[i]), missing)
         return ""
     finally:
         w.vfs.time_source = None
